@@ -786,3 +786,13 @@ pub fn run_c12(ctx: &Ctx) -> i32 {
         &[ASSUME_ORACLE],
     )
 }
+
+/// Replay helper for C08 / C11 (they need the run's hasher set).
+pub fn replay_hash_or_fen(ctx: &Ctx, prop: &str, p: &Pos, l: &mut Local) {
+    let hs = hashers(ctx);
+    if prop == "C08" {
+        c08_state(ctx, &hs, p, l, true, true);
+    } else {
+        c11_state(ctx, &hs, p, l, true);
+    }
+}
